@@ -71,20 +71,29 @@ impl ReplHighlighter {
     }
 }
 
+fn is_open_bracket(token_type: &TokenType) -> bool {
+    matches!(token_type, TokenType::LeftParen | TokenType::HashParen)
+}
+
+fn is_close_bracket(token_type: &TokenType) -> bool {
+    matches!(token_type, TokenType::RightParen)
+}
+
 fn find_matching_bracket<'a>(
     tokens: &'a [Token],
     bracket: (usize, &'a Token),
 ) -> Option<&'a Token> {
-    let (have, want, mut iter): (TokenType, TokenType, Box<dyn Iterator<Item = &Token>>) =
+    type Pred = fn(&TokenType) -> bool;
+    let (have, want, mut iter): (Pred, Pred, Box<dyn Iterator<Item = &Token>>) =
         match bracket.1.token_type {
             TokenType::RightParen => (
-                TokenType::RightParen,
-                TokenType::LeftParen,
+                is_close_bracket,
+                is_open_bracket,
                 Box::new(tokens[..(bracket.0)].iter().rev()),
             ),
-            TokenType::LeftParen => (
-                TokenType::LeftParen,
-                TokenType::RightParen,
+            TokenType::LeftParen | TokenType::HashParen => (
+                is_open_bracket,
+                is_close_bracket,
                 Box::new(tokens[(bracket.0 + 1)..].iter()),
             ),
             _ => return None,
@@ -92,11 +101,11 @@ fn find_matching_bracket<'a>(
 
     let mut stack = 0;
     for it in &mut *iter {
-        if it.token_type == have {
+        if have(&it.token_type) {
             stack += 1;
         }
 
-        if it.token_type == want {
+        if want(&it.token_type) {
             if stack == 0 {
                 return Some(it);
             } else {
